@@ -4,7 +4,7 @@ import ast
 
 from .. import AnalysisError
 from ..cfg import ALL_KINDS, NORMAL_KINDS
-from ..lib import always_followed_by, attr_stores, fresh_queue_poll, hpc_queue_confined, gated_sites, guard_forms, key_of, type_is, ungated_chain
+from ..lib import always_followed_by, attr_stores, fresh_queue_poll, hpc_queue_confined, gated_sites, guard_forms, key_of, render, type_is, ungated_chain
 from ..report import describe, rule
 from .common import report_role, spawn_sites
 
@@ -175,3 +175,26 @@ def c14_5(ctx, r):
         r.ok("completion step spawns `jade try-submit-jobs` (entry of C14.1)", at=ss[0].loc)
     else:
         r.note("cancel-jobs spawns no try-submit-jobs (completion step removed or renamed)")
+
+
+@rule(P, "C14.6", "T8", "the id asked to be canceled reaches the scheduler's cancel command", min_obligations=3)
+def c14_6(ctx, r):
+    hm = ctx.fn("HpcManager.cancel_job", "C14.6")
+    ss = [s for s in ctx.cg.sites_in(hm) if "SCANCEL" in ctx.site_effects(s)]
+    r.check(len(ss) == 1 and ss[0].node.args and ctx.src(ss[0].node.args[0]) == "job_id" and not [f for n in ctx.nodes_of(hm, ss[0].node) for f in guard_forms(ctx, hm, n)],
+            "HpcManager.cancel_job passes its job_id to the interface, unconditionally", key_of(hm, "forward id"), hm.loc(), "HpcManager.cancel_job does not (unconditionally) call intf.cancel_job(job_id)",
+            "every batch that was active is asked to be canceled")
+    sm = ctx.fn("SlurmManager.cancel_job", "C14.6")
+    from ..lib import _single_return
+
+    rx = _single_return(sm)
+    ok = rx is not None and isinstance(rx, ast.Call) and ctx.cg.site_of(sm, rx) is not None and ctx.cg.site_of(sm, rx).calls_short(ctx.ix, "run_command.run_command") and render(ctx, sm, rx.args[0]) == "f'scancel {job_id}'"
+    r.check(ok, "SLURM: cancel = run_command(f'scancel {job_id}')", key_of(sm, "scancel"), sm.loc(), f"SlurmManager.cancel_job is `{ctx.src(rx) if rx is not None else None}`", "asked to be canceled")
+    cj = ctx.fn("cancel_jobs.cancel_jobs", "C14.6")
+    s2 = ctx.some_sites(cj, "C14.6", short="JobSubmitter.cancel_jobs")
+    r.check(len(s2) == 1 and [ctx.src(a) for a in s2[0].node.args] == ["cluster"], "the command cancels on the handle it was promoted with", key_of(cj, "handle"), s2[0].loc, "cancel_jobs is given another cluster handle")
+    # the handle was loaded with its job status (the ids to cancel)
+    ds = ctx.some_sites(cj, "C14.6", short="Cluster.deserialize")
+    dz = ctx.fn("Cluster.deserialize")
+    a = ctx.arg_for(ds[0], dz, "deserialize_jobs")
+    r.check(isinstance(a, ast.Constant) and a.value is True, "the handle carries the persisted job status (deserialize_jobs=True)", key_of(cj, "deserialize_jobs"), ds[0].loc, "cancel-jobs loads the cluster without its job status: there are no ids to cancel")
